@@ -122,12 +122,13 @@ class C02(Property):
   def setup(self):
     from audiolazy import (lazy_stream, lazy_itertools, lazy_filters,
                            lazy_analysis, lazy_misc, lazy_poly,
-                           lazy_auditory, lazy_io, lazy_math)
+                           lazy_auditory, lazy_io, lazy_math, lazy_synth)
     P = _NS()
     P.ls, P.lit, P.lf, P.la = (lazy_stream, lazy_itertools, lazy_filters,
                                lazy_analysis)
     P.lm, P.lp, P.lau, P.lio, P.lmath = (lazy_misc, lazy_poly, lazy_auditory,
                                          lazy_io, lazy_math)
+    P.lsy = lazy_synth
     self.P = P
     import sys
     sys.unraisablehook = lambda *a: None
